@@ -379,6 +379,13 @@ def observe(w, i, V, s=None):
             out.append((lab, dense(A)))
         out.append(("mesh.coord", np.asarray(s.mesh.coord, dtype=object).reshape(-1)))
         return out
+    n = s.mesh.Nn * s.Get_dof_n()
+    u = V.array(f"u{n}", n)
+    if w.sim == "elastic":
+        # results of an arbitrary state requested BEFORE anything asks for the matrices (nothing has read the law since the last change)
+        s._Set_solutions(s.problemType, u)
+        for name in RESULTS[w.sim]:
+            out.append((f"Result({name!r}) read before the matrices", np.asarray(s.Result(name, nodeValues=False), dtype=object).reshape(-1)))
     K, C, M, F = s.Get_K_C_M_F()
     for lab, A in (("K", K), ("C", C), ("M", M), ("F", F)):
         out.append((lab, dense(A)))
@@ -386,8 +393,6 @@ def observe(w, i, V, s=None):
     out.append(("Dirichlet dofs", np.asarray(s.Bc_dofs_Dirichlet(), dtype=object).reshape(-1)))
     out.append(("Dirichlet values", np.asarray(s.Bc_values_Dirichlet(), dtype=object).reshape(-1)))
     # results of an arbitrary state
-    n = s.mesh.Nn * s.Get_dof_n()
-    u = V.array(f"u{n}", n)
     s._Set_solutions(s.problemType, u)
     for name in RESULTS[w.sim]:
         out.append((f"Result({name!r})", np.asarray(s.Result(name, nodeValues=False), dtype=object).reshape(-1)))
@@ -494,7 +499,7 @@ def job_seq(cfg):
             for idx in np.ndindex(*g.shape):
                 if facade._isnum0(g[idx]) and facade._isnum0(wnt[idx]):
                     continue
-                o = prove_abs_le(as_sym(g[idx]) - as_sym(wnt[idx]), TOL * 1000 if lab in ("K", "C", "Result('Stress')", "Result('Wdef_e')") else TOL, pcs, label)
+                o = prove_abs_le(as_sym(g[idx]) - as_sym(wnt[idx]), TOL * 1000 if lab in ("K", "C") or lab.startswith("Result('Stress')") or lab.startswith("Result('Wdef_e')") else TOL, pcs, label)
                 if o.status != "held":
                     worst = o
                     break
